@@ -489,7 +489,8 @@ func (c *Ctx) checkD3(r *ssa.Function, t onnxType) {
 			needed = true
 		}
 	}
-	if !needed || t.goT == types.Bool || r.Signature.Results().Len() == 1 {
+	_ = needed // consulted always (see the Cast table)
+	if t.goT == types.Bool || r.Signature.Results().Len() == 1 {
 		return
 	}
 	// how the reader is factored does not matter to the table: payloads of 0..2w+1 bytes
@@ -503,7 +504,9 @@ func (c *Ctx) checkD3(r *ssa.Function, t onnxType) {
 			continue
 		}
 		if bad == "" {
-			o.Status, o.Why = StDischarged, fmt.Sprintf("by the finite table of payload lengths 0..%d (the structural reading does not recognise the factoring): one value per %d bytes, little-endian, in order, no panic", 2*t.width+1, t.width)
+			if o.Status == StViolated || o.Status == StUndecided {
+				o.Status, o.Why = StDischarged, fmt.Sprintf("by the finite table of payload lengths 0..%d (the structural reading does not recognise the factoring): one value per %d bytes, little-endian, in order, no panic", 2*t.width+1, t.width)
+			}
 		} else {
 			o.Status, o.Why = StViolated, bad
 		}
@@ -1401,12 +1404,28 @@ func (c *Ctx) applyDecodeTable(from int) {
 			needed = true
 		}
 	}
-	if !needed && os.Getenv("DECODEDEBUG") == "" {
-		return
-	}
+	_ = needed
 	t := c.decodeTable()
 	if os.Getenv("DECODEDEBUG") != "" {
 		fmt.Println("DECODEDEBUG table", t.known, t.cells, t.bads)
+	}
+	// the table is an obligation of its own: the dispatch can be right as the structural rules read it and a cell
+	// still be answered wrongly (a check added after the dispatch that refuses a supported encoding)
+	if di := c.decodeInfo(); di != nil {
+		site := c.pos(di.fn.Pos())
+		switch {
+		case !t.known:
+			c.note("R13", "R13:dispatch-table", site, "the dispatch table cannot follow the decoder to one outcome per cell; the structural rules D1, D2, D5 decide")
+		case len(t.bads) > 0:
+			var ks []string
+			for k := range t.bads {
+				ks = append(ks, k)
+			}
+			sort.Strings(ks)
+			c.violate("R13", "R13:dispatch-table", site, t.bads[ks[0]])
+		default:
+			c.discharge("R13", "R13:dispatch-table", site, fmt.Sprintf("%d cells (data_type codes x the field that holds the payload): a supported type is loaded from its ONNX field or from raw_data and refused from any other, unsupported types are refused", t.cells))
+		}
 	}
 	if !t.known {
 		return
